@@ -12,8 +12,10 @@ Oracles (all independent of the codec implementation: round trip, exception clas
        decodes to the same scene;
  (iv)  every proper prefix of a scene encoding raises SerializationError; for replays: inside
        the header and strictly inside a value's encoding;
- (v)   single-byte substitutions either decode or raise SerializationError (replays:
-       additionally the documented DivergenceError / rejection);
+ (v)   single-byte substitutions at every offset (integers and the sign/exponent bytes of
+       doubles: 16/8 values in the quick tier, all 255 in the thorough tier; other bytes 2/6)
+       either decode or raise SerializationError (replays: additionally the documented
+       DivergenceError / rejection);
  (vi)  replay of a run recorded with enableDivergenceCheck, with one reported dynamic property
        shifted by delta at one update: DivergenceError  <=>  |delta| > divergenceTolerance.
 """
@@ -228,9 +230,11 @@ def check_truncations(out, scenario, data, spans, src):
 def corruption_values(rng, orig, k):
     if k >= 255:
         return [v for v in range(256) if v != orig]
-    cand = [orig ^ 1, orig ^ 0x80, 0xFF, 0x00, 0xFD, 0xFE, 0x7F, (orig + 1) % 256]
+    cand = [orig ^ 1, orig ^ 0x80, 0xFF, 0x00, 0xFD, 0xFE, 0x7F, (orig + 1) % 256, 0xF0, 0xFC,
+            0x80, 0x01]
     vals = []
-    for v in [orig ^ (1 << rng.randrange(8)), rng.choice(cand), rng.randrange(256)]:
+    first = [orig ^ (1 << rng.randrange(8)), rng.choice(cand), rng.randrange(256)]
+    for v in first + (cand if k > 3 else []):
         if v != orig and v not in vals:
             vals.append(v)
     while len(vals) < k:
@@ -240,14 +244,37 @@ def corruption_values(rng, orig, k):
     return vals[:k]
 
 
-def check_corruptions(out, scenario, data, spans, src, rng, per_offset, max_decodes):
+def corruption_plan(data, spans, header, tier, rng, max_decodes):
+    """[(offset, [values])]: every offset is hit; the bytes whose corruption changes the
+    *structure* of the decoded value get many more values -- all bytes of integers (option
+    indices, lengths) and the two high-order bytes of every double (sign / exponent: NaN, inf,
+    huge magnitudes) -- quick: 16 / 8 values, thorough: all 255; other bytes 2 / 6 values."""
+    hot, warm = {}, {}
+    for a, b, ty in spans:
+        if ty in ("int", "bool"):
+            for n in range(a, b):
+                hot[n] = True
+        elif (b - a) % 8 == 0:  # float, Vector, Orientation, Color: packed doubles
+            for n in range(a, b):
+                if (n - a) % 8 >= 6:
+                    warm[n] = True
+    k_hot, k_warm, k_cold = (16, 8, 2) if tier == "quick" else (255, 255, 6)
+    plan = []
+    for off in range(len(data)):
+        k = k_hot if off in hot else k_warm if off in warm else k_cold
+        plan.append((off, corruption_values(rng, data[off], k)))
+    total = sum(len(v) for _, v in plan)
+    if total > max_decodes:  # scale down uniformly, keep at least one value per offset
+        f = max_decodes / total
+        plan = [(off, vals[:max(1, int(len(vals) * f))]) for off, vals in plan]
+    return plan
+
+
+def check_corruptions(out, scenario, data, spans, src, rng, tier, max_decodes):
     header = 10
-    n = len(data)
-    budget = max_decodes
-    per = max(1, min(per_offset, budget // max(n, 1)))
     stats = {"ok": 0, "ser": 0}
-    for off in range(n):
-        for v in corruption_values(rng, data[off], per):
+    for off, vals in corruption_plan(data, spans, header, tier, rng, max_decodes):
+        for v in vals:
             bad = data[:off] + bytes([v]) + data[off + 1:]
             kind, val = decode_outcome(lambda: scenario.sceneFromBytes(bad))
             if kind == "other":
@@ -593,7 +620,17 @@ def judge_codec(case):
     return out
 
 
+_CODEC = None
+
+
 def codec_cases():
+    global _CODEC
+    if _CODEC is None:
+        _CODEC = _codec_cases()
+    return _CODEC
+
+
+def _codec_cases():
     cases = []
     for b in c18_gen.INT_BOUNDS + [2 ** 2039 - 1, -2 ** 2039, 2 ** 2039, 2 ** 2047, 2 ** 15,
                                    -2 ** 15, 2 ** 16, 2 ** 32, -2 ** 63 + 1, 10 ** 599,
@@ -631,6 +668,13 @@ def judge(case, tier="quick"):
     from scenic.core.serialization import SerializationError
 
     out = Outcome()
+    from vf.props import c14
+
+    if c14.veneer_state():
+        # a previous case left interpreter state behind (C14's business): repair, do not
+        # let it cascade into this case's verdicts
+        out.cls("repaired-veneer-state")
+        c14.force_reset()
     prog = case["prog"]
     src = c18_gen.emit(prog)
     feats = c18_gen.features(prog)
@@ -684,9 +728,8 @@ def judge(case, tier="quick"):
     # (iv) truncation
     check_truncations(out, scenario, data, spans, src)
     # (v) corruption
-    per = 3 if tier == "quick" else 255
-    stats = check_corruptions(out, scenario, data, spans, src, rng, per,
-                              1200 if tier == "quick" else 12000)
+    stats = check_corruptions(out, scenario, data, spans, src, rng, tier,
+                              1500 if tier == "quick" else 9000)
     if stats["ok"]:
         out.cls("corrupt-decodes")
     if stats["ser"]:
@@ -708,6 +751,10 @@ def replay(case):
 
 @st.composite
 def cases(draw):
+    if draw(st.integers(0, 11)) == 0:
+        # direct codec values (all of them are also enumerated by shard 0); drawn here too so
+        # that the shrinking pass can reach their signatures
+        return draw(st.sampled_from(codec_cases()))
     prog = draw(c18_gen.programs())
     return {"kind": "prog", "prog": prog, "seed": draw(st.integers(0, 10 ** 6)),
             "cseed": draw(st.integers(0, 10 ** 6)), "variant": draw(st.integers(0, 11)),
@@ -726,8 +773,11 @@ def selfcheck():
     if _CHECKED:
         return
     import scenic
+    import scenic.core.dynamics as dynamics
     from vf.c18_sim import HSimulator
 
+    # Scenic's stuck-behavior alarm would cancel the harness' SIGALRM based case time limit
+    dynamics.stuckBehaviorWarningTimeout = 0
     try:
         canon.selftest()
     except AssertionError as e:
@@ -760,7 +810,7 @@ def selfcheck():
 
 
 def plan(tier, seed, jobs):
-    n = 45 if tier == "quick" else 700
+    n = 45 if tier == "quick" else 260
     return [{"seed": seed * 1000 + k, "n": n, "codec": k == 0} for k in range(jobs)]
 
 
@@ -772,7 +822,7 @@ def run_shard(shard, tier):
             col.add(c, judge_codec(c))
     import os
 
-    shrink_s = float(os.environ.get("VERIF_SHRINK_S", 10 if tier == "quick" else 60))
+    shrink_s = float(os.environ.get("VERIF_SHRINK_S", 8 if tier == "quick" else 60))
     core.hyp_search(cases(), lambda c: judge(c, tier), shard["n"], shard["seed"], col,
                     known_sigs=shard.get("known_sigs", ()), case_timeout=120,
                     shrink_s=shrink_s, shrink=shrink_s > 0)
